@@ -78,7 +78,7 @@ def rand_annos(rng):
 
 
 def abstract_class(rng, idx):
-    cls = rng.choice(["FooTest", "BarTests", "Baz", "QuxTest"]) + ("" if idx == 0 else str(idx))
+    cls = rng.choice(["FooTest", "BarTests", "Baz", "QuxTest", "ÜberweisungTest"]) + ("" if idx == 0 else str(idx))
     methods = []
     for j in range(rng.choice([1, 2, 3, 4])):
         methods.append({"name": "t%d" % j, "annos": rand_annos(rng), "atoms": rand_atoms(rng)})
